@@ -7,17 +7,35 @@ for e, fns, uw in [("IntTypeDefs", ["asmpars_init", "RangeCheck"], 70), ("EvalSt
     GROUPS.append(G("rng_" + e, SRC, "h_" + e, enforce=[], link=["asmdef.c", "tempresult.c", "nonzstring.c", "bpemu.c"], stubs=["stubs/gerr.c"],
                     unwind=uw, timeout=600, dfcc=False, object_bits=12, defs=["-DSTRINGSIZE=64"], functions=fns,
                     replace_calls=["EvalStrExpression:verif_EvalStrExpression"]))
-TRUSTED_BASE = ["formula parser replaced by an oracle returning an arbitrary integer and flags (goto-instrument --replace-calls)"]
-ASSUMPTIONS = ["each code generator passes the integer type of its field to EvalStrIntExpression (which type each passes is not checked)"]
-NOT_COVERED = ["every instruction handler of code65.c, code85.c, codez80.c, codemsp.c, code16c8x.c, codeavr.c, code4004.c (opcode/operand encodings)",
-               "PC-relative displacement computation"]
-EXPLANATION = ("Only the shared half of the property is decided: an operand value outside the range of the integer type its field is evaluated with "
-               "is rejected with an error (never silently truncated), a fitting value is passed on unchanged, and the type table holds the "
-               "documented ranges. The opcode encodings of the seven instruction sets are not under contract.")
+H4 = "harness/C14/h_code4004.c"
+for e, fns, uw, bd in [("table", ["InitFields"], 100, None),
+                       ("DecodeFixed", ["DecodeFixed"], 8, None),
+                       ("DecodeOneReg", ["DecodeOneReg", "DecodeReg", "DecodeRegCore", "RegVal"], 10, "operand text of at most 6 characters"),
+                       ("DecodeOneRReg", ["DecodeOneRReg", "DecodeRReg", "DecodeRRegCore", "DecodeRegCore", "RegVal"], 10, "operand text of at most 6 characters"),
+                       ("DecodeImm4", ["DecodeImm4"], 8, None), ("DecodeFullJmp", ["DecodeFullJmp"], 8, None),
+                       ("DecodeISZ", ["DecodeISZ", "DecodeReg"], 10, "register operand text of at most 6 characters"),
+                       ("DecodeJCN", ["DecodeJCN"], 10, "condition text of at most 4 characters"),
+                       ("DecodeFIM", ["DecodeFIM", "DecodeRReg"], 10, "pair operand text of at most 4 characters")]:
+    GROUPS.append(G("i4004_" + e, H4, "h_" + e, enforce=[], link=["bpemu.c"], stubs=["stubs/gerr.c"], unwind=uw, timeout=600, dfcc=False, drop_unused=True,
+                    object_bits=12, defs=["-DSTRINGSIZE=64"], functions=fns, bounded=bd))
+TRUSTED_BASE = ["formula parser replaced by an oracle returning an arbitrary integer and flags (goto-instrument --replace-calls)",
+                "code4004 harness: formula evaluator = oracle constrained by its contract (OK => value within the requested integer type; that contract is the obligation rng_EvalStrInt_range), register-alias lookup = oracle, instruction hash table = logging stub",
+                "the reference 4004/4040 opcode table in harness/C14/h_code4004.c was written from the Intel MCS-4 / MCS-40 documentation"]
+ASSUMPTIONS = ["each code generator passes the integer type of its field to EvalStrIntExpression (checked for the 4004 handlers only)"]
+NOT_COVERED = ["every instruction handler of code65.c, code85.c, codez80.c, codemsp.c, code16c8x.c, codeavr.c (opcode/operand encodings) -- six of the seven ISAs named in the property",
+               "4004: DATA/DS pseudo instructions, register symbols defined with REG"]
+EXPLANATION = ("Decided: (1) the shared half of the property for every target: an operand value outside the range of the integer type its field is evaluated with is rejected with an "
+               "error (never silently truncated), a fitting value is passed on unchanged, the type table holds the documented ranges; (2) for the Intel 4004/4040 the whole code "
+               "generator: the instruction table against an independent opcode table, and every operand form (register and register-pair syntax, 4-bit and 8-bit immediates, 12-bit "
+               "jump targets, page rule of ISZ/JCN) against the manufacturer's encoding. The other six instruction sets named in the property are not under contract.")
 MANIFEST = dict(
     category="other",
-    text="Shared range-rejection path only: the integer type table built by asmpars_init (every type below 64 bits) and the tail of "
-         "EvalStrIntExpressionWithResult (fits => unchanged, outside => error and -1, first-pass placeholders masked) verified on the real code with "
-         "the formula parser replaced by an oracle. The instruction encoders of the seven ISAs named in the property are NOT covered.",
-    note="Kernel claim; which type each code generator requests is assumed.",
+    text="(1) Shared range-rejection path for all targets: integer type table built by asmpars_init and the tail of EvalStrIntExpressionWithResult (fits => unchanged, outside => "
+         "error and -1, first-pass placeholders masked) verified on the real code with the formula parser replaced by an oracle. (2) Intel 4004/4040 (code4004.c) completely: every "
+         "documented mnemonic is in the instruction table with its documented opcode, operand form and minimum CPU (independent reference table); DecodeFixed/OneReg/OneRReg/AccReg "
+         "path/Imm4/FullJmp/ISZ/JCN/FIM produce exactly the manufacturer's bytes for every operand (register names R0..RF/R00..R15, pairs RnP and R<2n>R<2n+1>, immediates through "
+         "the 4-/8-/12-bit types), reject everything else with an error and no code, and apply the next-instruction page rule to ISZ and JCN. The other six ISAs named in the property "
+         "are NOT covered.",
+    note="Operand texts are bounded to 6 characters (register parsers are loop-bounded by the syntax itself). Trusted: evaluator and alias oracles, the reference opcode table. One defect "
+         "found and repaired (ISZ page rule).",
 )
